@@ -19,7 +19,7 @@ PROPS = {
                          {"harness": "sched_tsan", "args": ["--reps", 200]}],
         },
         "deadline": {"quick": 600, "thorough": 1500},
-        "rule": "13 thread bodies (two Clipper64 sharing one read-only ReuseableDataContainer64, ClipperD, ClipperOffset with constant and callback deltas, RectClip+RectClipLines, MinkowskiSum, path utilities, PolyTree64 with an island inscribed in its hole, the PathsD convenience functions on valid and on invalid arguments, ClipperD into PolyTreeD at two precisions, ClipperOffset on one-point paths), all 91 unordered pairs (a body paired with itself uses different data) and 6 triples containing the two sharing clippers; "
+        "rule": "14 thread bodies (two Clipper64 sharing one read-only ReuseableDataContainer64, ClipperD, ClipperOffset with constant and callback deltas, RectClip+RectClipLines, MinkowskiSum, path utilities, PolyTree64 with an island inscribed in its hole, the PathsD convenience functions on valid and on invalid arguments, ClipperD into PolyTreeD at two precisions, ClipperOffset on one-point paths, MinkowskiDiff on Path64 and PathD with a different pattern per variant), all 105 unordered pairs (a body paired with itself uses different data) and 6 triples containing the two sharing clippers; "
                 "every schedule with at most p preemptions (scheduling point at every entry of a function compiled from Clipper2 sources), every schedule run to completion; non-trivial = at least one preemption took place",
         "level_text": "Stateless schedule exploration on the real library with real threads under a serialising scheduler (iterative context bounding); per schedule each thread's result must equal its sequential result and the hash of all writable static storage of the library objects plus the shared container's heap blocks must stay at its warmed-up value at every scheduling point; a separate free-running ThreadSanitizer pass covers unsynchronised accesses between scheduling points.",
         "assumptions": ["2-3 threads, at most 2 preemptions (quick: 1)", "sequentially consistent interleavings at function-entry granularity; finer-grained races are left to the ThreadSanitizer pass", "thread bodies use fixed inputs"],
